@@ -765,17 +765,19 @@ KS = [0.0, 0.25, 0.5, 1.0, 1.0, 1.5, 2.0, 2.3, 3.0, 0.37]
 
 
 @st.composite
-def s_ops(draw, max_ops, orders, allow_step):
+def s_ops(draw, max_ops, orders, allow_step, no_zero=False):
     ops = []
     n = draw(st.integers(1, max_ops))
+    kinds = ["update_to", "update_to", "update_to", "at_times"] + ([] if no_zero else ["repeat"]) + (["step"] if allow_step else [])
+    ks = [k for k in KS if k > 0] if no_zero else KS
     for _ in range(n):
-        kind = draw(st.sampled_from(["update_to", "update_to", "update_to", "at_times", "repeat"] + (["step"] if allow_step else [])))
+        kind = draw(st.sampled_from(kinds))
         op = {"op": kind, "order": draw(st.sampled_from(orders)),
               # per call override of the step (factor of the base step) or, in tolerance form, of the tolerance
               "dtf": draw(st.sampled_from([None, None, None, 0.5, 2.0, 0.7])),
               "nsteps": draw(st.sampled_from([1, 2, 3]))}
         if kind == "update_to":
-            op["k"] = draw(st.sampled_from(KS))
+            op["k"] = draw(st.sampled_from(ks))
         elif kind == "at_times":
             op["ks"] = draw(st.lists(st.sampled_from(KS), min_size=1, max_size=3))
             op["reverse"] = draw(st.booleans())
@@ -788,11 +790,18 @@ def s_ops(draw, max_ops, orders, allow_step):
 
 @st.composite
 def s_history(draw, tier, Ls, cyclic, imag=(False,), orders=(1, 2, 4), max_ops=4, kmax=8.0, bonds=(1, 2, 3), bsym=(False,),
-              allow_tol=True, allow_step=True, ds=(2, 2, 2, 3), rare_order1=False):
+              allow_tol=True, allow_step=True, ds=(2, 2, 2, 3)):
+    # 60 % of the histories are built clear of the trigger classes of the open findings (C11-a: imaginary time at
+    # order 1, C11-b: non-symmetric periodic boundary term, C11-d: tolerance form with a zero span, C11-f: imaginary
+    # time on a ring) so that the search goes on behind them; the rest is unrestricted.
+    clean = draw(st.integers(0, 9)) < 6
+    if clean:
+        if cyclic:
+            bsym = (True,)
+            imag = (False,)
+        if True in imag:
+            orders = tuple(o for o in orders if o != 1) or orders
     ham = draw(s_ham1d(Ls=Ls, cyclic=(cyclic,), bsym=bsym, ds=ds, dmax_dense=128))
-    if rare_order1 and draw(st.integers(0, 3)) > 0:
-        # (imaginary time) every order 1 call trips finding C11-a: keep three quarters of the histories clear of it
-        orders = tuple(o for o in orders if o != 1)
     mode = draw(st.sampled_from(["dt", "dt", "tol", "percall"] if allow_tol else ["dt"]))
     return {
         "ham": ham,
@@ -802,29 +811,8 @@ def s_history(draw, tier, Ls, cyclic, imag=(False,), orders=(1, 2, 4), max_ops=4
         "mode": mode, "tol_order": draw(st.sampled_from(orders)),
         "dt": draw(st.sampled_from([0.1, 0.05, 0.13])), "t0": draw(st.sampled_from([0.0, 0.0, -0.7, 0.35])),
         "imag": draw(st.sampled_from(imag)), "kmax": kmax,
-        "ops": draw(s_ops(max_ops, orders, allow_step and mode == "dt")),
+        "ops": draw(s_ops(max_ops, orders, allow_step and mode == "dt", no_zero=clean and mode != "dt")),
     }
-
-
-def fold_value(tensors, output):
-    """einsum of a long list of tensors folded in left to right (numpy.einsum alone is limited to 52 labels):
-    a label is summed as soon as no later tensor and not the output carries it."""
-    cur_a, cur_l = None, None
-    for n, (a, l) in enumerate(tensors):
-        if cur_a is None:
-            cur_a, cur_l = np.asarray(a), list(l)
-            continue
-        later = set(output)
-        for _, l2 in tensors[n + 1:]:
-            later.update(l2)
-        keep = [x for x in dict.fromkeys(list(cur_l) + list(l)) if x in later]
-        ids = {}
-        f = lambda ls: [ids.setdefault(x, len(ids)) for x in ls]
-        cur_a = np.einsum(cur_a, f(cur_l), np.asarray(a), f(l), f(keep))
-        cur_l = keep
-    ids = {}
-    f = lambda ls: [ids.setdefault(x, len(ids)) for x in ls]
-    return np.einsum(cur_a, f(cur_l), f(list(output)))
 
 
 def mps_dense(psi, L):
@@ -1309,8 +1297,9 @@ def s_mpo_prop(draw, tier):
     spec = draw(s_ham1d(Ls=(2, 3, 4, 5), cyclic=(False,), ds=(2,)))
     order = draw(st.sampled_from([1, 2, 4]))
     cs = draw(st.booleans()) and not (order == 4 and spec["L"] > 3)  # fused bonds 4**10: seconds per case
-    return {"ham": spec, "order": order, "x": draw(st.sampled_from(XS)),
-            "contract_sites": cs, "shape": draw(st.sampled_from(["default", "default", "none", "lrdu"]))}
+    # several tensors per site + a `shape` to permute to is finding C11-e: keep it to a quarter of those cases
+    shape = draw(st.sampled_from(["default", "default", "none", "lrdu"] if cs else ["none", "none", "none", "default"]))
+    return {"ham": spec, "order": order, "x": draw(st.sampled_from(XS)), "contract_sites": cs, "shape": shape}
 
 
 def run_mpo_prop(case):
@@ -1356,21 +1345,21 @@ SUBCHECKS = [
              rule="orders 1/2/4 x 0-6 layers: equals the docstring formula, fractions per layer sum to 1, palindromic, Suzuki order condition; unsupported orders raise"),
     SubCheck("tebd_open_real", run_history, strat_hist(Ls=(2, 3, 4, 5, 6, 7), cyclic=False, imag=(False,)), examples=(120, 3000),
              shards=(2, 6), rule="open chain, cutoff 0, real time: after every call t == T (1e-12), dense state == product formula (EXACT64), norm preserved (1e-10); nt as RULE"),
-    SubCheck("tebd_open_imag", run_history, strat_hist(Ls=(2, 3, 4, 5, 6, 7), cyclic=False, imag=(True,), rare_order1=True), examples=(100, 2500),
+    SubCheck("tebd_open_imag", run_history, strat_hist(Ls=(2, 3, 4, 5, 6, 7), cyclic=False, imag=(True,)), examples=(100, 2500),
              shards=(1, 4), rule="open chain, imaginary time: state == normalised product formula, norm == 1 (1e-10), t == T; nt as RULE"),
     SubCheck("tebd_cyclic_even", run_history,
-             strat_hist(Ls=(4, 6), cyclic=True, imag=(False, False, False, True), max_ops=2, kmax=3.0, bonds=(1, 2),
-                        bsym=(False, True, True), ds=(2,)),
+             strat_hist(Ls=(4, 6), cyclic=True, imag=(False, True), max_ops=2, kmax=3.0, bonds=(1, 2),
+                        bsym=(False, True), ds=(2,)),
              examples=(60, 1500), shards=(1, 4),
              rule="even periodic chain, cutoff 1e-13, <= 2.5 steps: state == product formula with the boundary bond in the odd layer (1e-8), t, norm; nt as RULE"),
     SubCheck("tebd_cyclic_odd", run_history,
-             strat_hist(Ls=(3, 5), cyclic=True, imag=(False, False, False, True), max_ops=2, kmax=3.0, bonds=(1, 2),
+             strat_hist(Ls=(3, 5), cyclic=True, imag=(False, True), max_ops=2, kmax=3.0, bonds=(1, 2),
                         bsym=(False, True), ds=(2,)),
              examples=(40, 1000), shards=(1, 4),
              rule="odd periodic chain: time book-keeping and norm only (no symmetric splitting exists); nt as RULE"),
     SubCheck("conv_open", run_conv, strat_conv(Ls=(3, 4, 5, 6), cyclic=False), examples=(40, 800), shards=(1, 4),
              rule="open chain: error vs expm(-iHT) psi0 at 2/4/8 steps, fitted slope >= order - 0.35; nt: L>=3"),
-    SubCheck("conv_cyclic", run_conv, strat_conv(Ls=(3, 4, 5, 6), cyclic=True, bsym=(False, True, True), bonds=(1,)), examples=(40, 800),
+    SubCheck("conv_cyclic", run_conv, strat_conv(Ls=(3, 4, 5, 6), cyclic=True, bsym=(False, True, True, True), bonds=(1,)), examples=(40, 800),
              shards=(1, 4),
              rule="periodic chain: 1/2/4 steps (order 4: 1/2/3), slope >= order - 0.35 (even L), >= 0.5 (odd L); nt: all"),
     SubCheck("gate_cache_history", run_cache, s_cache, examples=(120, 2500), shards=(1, 4),
